@@ -292,6 +292,25 @@ func fibTable() string {
 	return joinSorted(es, "+")
 }
 
+// lookupMismatches: for every FIB entry, a lookup of the entry's own name (FindNextHopsEnc, longest-prefix match) must return
+// exactly that entry's next hops - so what the tables list is what forwarding uses.
+func lookupMismatches() []string {
+	var bad []string
+	for _, e := range table.FibStrategyTable.GetAllFIBEntries() {
+		var a, b []string
+		for _, h := range e.GetNextHops() {
+			a = append(a, fmt.Sprintf("%d.%d", h.Nexthop, h.Cost))
+		}
+		for _, h := range table.FibStrategyTable.FindNextHopsEnc(e.Name()) {
+			b = append(b, fmt.Sprintf("%d.%d", h.Nexthop, h.Cost))
+		}
+		if joinSorted(a, "|") != joinSorted(b, "|") {
+			bad = append(bad, nameStr(e.Name())+">"+joinSorted(a, "|")+"!="+joinSorted(b, "|"))
+		}
+	}
+	return bad
+}
+
 func stratTable() string {
 	var es []string
 	for _, e := range table.FibStrategyTable.GetAllForwardingStrategies() {
@@ -572,6 +591,9 @@ func runCase(id int, cs *caseSpec, emit func(string)) error {
 		got, st := w.command(wire, m.inFace)
 		emit(obsLine(in, got, st, w.crashed))
 		emit(fmt.Sprintf("TAB %s %s %s %d %s", ribTable(), fibTable(), stratTable(), table.CsCapacity(), facesTable(in)))
+		if bad := lookupMismatches(); len(bad) > 0 {
+			emit("LPMBAD " + strings.Join(bad, "+"))
+		}
 		var lv []string
 		for _, f := range w.faces {
 			if face.FaceTable.Get(f.id) == nil {
